@@ -28,7 +28,7 @@ func init() {
 	scenario("C13", "schedule", func(r *core.Run, c core.Case) {
 		var p C13Case
 		params(c, &p)
-		for _, s := range append(readerStreams(maxInt(p.Level, 0)), longStreams()...) {
+		for _, s := range append(append(readerStreams(maxInt(p.Level, 0)), longStreams()...), finalOpStreams()...) {
 			if s.Name == p.Stream {
 				x := core.Replay(func(x *core.X) { c13Body(r, s, p, x) }, p.Choices)
 				_ = x
@@ -246,6 +246,31 @@ func runC13(r *core.Run) {
 			}
 			e := &core.Explorer{Ctx: r, Name: "C13 " + s.Name, Bound: bd, Workers: r.Workers, Body: func(x *core.X) { c13Body(r, s, p, x) },
 				Stop: func() bool { return r.Expired("deviation-bounded schedules") }}
+			e.Run()
+			totalExec += e.Executions
+			totalPoints += e.Points
+			if !e.Complete {
+				complete = false
+			}
+		}
+	}
+	// streams ending in each kind of LZMA operation (the end of the stream is detected in different
+	// decoding steps): uniform schedules, and deviation bound 1 for every second variant
+	for _, s := range finalOpStreams() {
+		s := s
+		for _, b := range []int{1, 3, 4096} {
+			for _, f := range []int{1, 0} {
+				for _, e := range []bool{false, true} {
+					p := C13Case{Stream: s.Name, Level: level, DefBuf: b, DefFrag: f, EOFLast: e}
+					core.Replay(func(x *core.X) { c13Body(r, s, p, x) }, nil)
+					totalExec++
+				}
+			}
+		}
+		if s.Name[len(s.Name)-1] == '0' || (thorough(r) && s.Name[len(s.Name)-1] == '3') {
+			p := C13Case{Stream: s.Name, Level: level, DefBuf: 4096}
+			e := &core.Explorer{Ctx: r, Name: "C13 " + s.Name, Bound: 1, Workers: r.Workers, Body: func(x *core.X) { c13Body(r, s, p, x) },
+				Stop: func() bool { return r.Expired("deviation-bounded schedules (final-operation streams)") }}
 			e.Run()
 			totalExec += e.Executions
 			totalPoints += e.Points
